@@ -37,7 +37,7 @@ def routing(p):
     finds = [c for c in inner if any(x[0] == "call" and x[1] == "log::Metadata::<'a>::target" for x in walk(c))]
     if not finds:
         raise ShapeUnrecognised("Log::enabled: no local lookup applied to Metadata::target")
-    r["find"] = p.fn(finds[0][1])
+    r["find"] = p.fn_loops(finds[0][1])      # `next().and_then(|part| node.children.get(part))` is the match it denotes
     ll = p.fn_loops(LOG_LOG)      # iterator-adaptor spellings of the loops are analysed as the loops they denote
     r["log_log"] = ll
     cands = [c for c in ll.calls() if c.callee in p.fns and any(strip(a) == ("param", 2) for a in c.arg_exprs())
